@@ -107,7 +107,11 @@ def scenario(src, n=3, k=1, removal=True):
             src.reach('op:forced')
         elif op == 'snapshot':
             st = src.int_in(f'snap{step}', M.ALL_STATES)
-            core.add_process(ident, GROUP, NAME, st, now=CLOCK[0].t)
+            # the times of a payload are read on the sender's clocks: its monotonic clock starts again from 0 when the
+            # node reboots, so a later snapshot may carry an earlier time than what is stored - it is the latest all
+            # the same (reception order decides)
+            rebooted = src.pick_flag(f'sender_rebooted{step}')
+            core.add_process(ident, GROUP, NAME, st, now=0.5 if rebooted else CLOCK[0].t)
             forced_before = model.forced
             model.snapshot(ident, st, True)
             # the statement ties the end of a forced state to events; a snapshot may or may not end it
